@@ -483,7 +483,6 @@ func doUse(j useJob) (o useOut) {
 type orderJob struct {
 	Wasms []string `json:"wasms"`
 	Dir   string   `json:"dir"`
-	Two   bool     `json:"two"` // compile each module in two runtimes sharing the cache object
 }
 
 type orderOut struct {
@@ -534,12 +533,12 @@ type concOut struct {
 	Rounds      int      `json:"rounds"`
 	Errs        []string `json:"errs,omitempty"`
 	TraceDiff   []string `json:"trace_diff,omitempty"`
-	Reads       int      `json:"reads"`         // reader: successful complete reads
-	Absent      int      `json:"absent"`        // reader: polls that found no entry
-	Partial     []string `json:"partial"`       // reader: reads under the final name that were not the complete entry
-	EarlyRounds int      `json:"early_rounds"`  // reader: rounds in which the entry was seen before all writers were done
-	WroteRounds int      `json:"wrote_rounds"`  // writer: rounds in which this writer reached Add (hook seen)
-	MissRounds  int      `json:"miss_rounds"`   // writer: rounds in which the final file was absent when the writer started
+	Reads       int      `json:"reads"`        // reader: successful complete reads
+	Absent      int      `json:"absent"`       // reader: polls that found no entry
+	Partial     []string `json:"partial"`      // reader: reads under the final name that were not the complete entry
+	EarlyRounds int      `json:"early_rounds"` // reader: rounds in which the entry was seen before all writers were done
+	WroteRounds int      `json:"wrote_rounds"` // writer: rounds in which this writer reached Add (hook seen)
+	MissRounds  int      `json:"miss_rounds"`  // writer: rounds in which the final file was absent when the writer started
 	ReadErrs    []string `json:"read_errs,omitempty"`
 }
 
